@@ -925,7 +925,17 @@ func isInterfaceTOrParam(t types.Type) bool {
 // ---------------------------------------------------------------------------------------------
 // operators
 
+func isUntypedNil(v Value) bool {
+	b, ok := v.Ty.(*types.Basic)
+	return ok && b.Kind() == types.UntypedNil
+}
+
 func (u *Unit) eqValues(a, b Value, env *Env) Term {
+	if isUntypedNil(b) && !isUntypedNil(a) {
+		b = Value{u.zero(a.Ty), a.Ty}
+	} else if isUntypedNil(a) && !isUntypedNil(b) {
+		a = Value{u.zero(b.Ty), b.Ty}
+	}
 	if a.Sort != b.Sort {
 		// mixed: box the concrete side
 		if a.Sort == SVal {
